@@ -989,6 +989,9 @@ func c19Guesses(r *vk.RNG, pw string, generated bool) []c19Guess {
 		{"doubled", pw + pw, true},
 		{"right", pw, true},
 	}
+	if t := strings.TrimSpace(pw); t != pw {
+		gs = append(gs, c19Guess{"trimmed", t, true})
+	}
 	if strings.Contains(pw, "$") {
 		// what the password would read after shell-style expansion with nothing set
 		gs = append(gs, c19Guess{"dollar-expanded", os.Expand(pw, func(string) string { return "" }), true},
@@ -1140,6 +1143,25 @@ func c19LoginGrid(c *vk.Case, combo int) {
 		}
 	}
 	c.Sample(sample)
+	if generated {
+		return
+	}
+	// white space is part of a password like any other byte: a password made of blanks only is a configured password
+	// (nothing is generated in its place), and neither it nor a padded one equals its trimmed form or the empty string
+	base := c19Password(r)
+	for _, pw := range []string{" ", "   ", "\t", " \r\n", " " + base + " ", base + "\n", "\t" + base} {
+		in := c19NewInst(c, disable, lbAuthn, false, pw)
+		c.Obs("configured_passwords_with_outer_white_space", 1)
+		for _, g := range c19Guesses(r, in.pw, false) {
+			switch g.Class {
+			case "empty", "absent", "trimmed", "prefix-minus-one", "suffix", "leading-space", "trailing-space", "right":
+				for _, remote := range []string{"203.0.113.7:4000", "127.0.0.1:4000"} {
+					cks := in.attempt(c19LoginReq("POST", "form", g, remote), g, "form")
+					c.SetSig("login:white-space-password:disable=%v:lbauthn=%v:guess=%s:issued=%v", disable, lbAuthn, g.Class, len(cks) > 0)
+				}
+			}
+		}
+	}
 }
 
 // ---- exhaustive single-byte mutations of one valid cookie
